@@ -300,67 +300,100 @@ def qc_lit(x):
     return '(qc (%d) %d)' % (x.p, x.q)
 
 
-def gen_kind_file(tr, X, rng, meta):
-    """obligations for source representation X"""
+def ir_depth(tr, ir):
+    """nesting depth of non-trivial conversions inside an IR"""
+    t = ir[0]
+    if t in ('num', 'z0', 'self', 'arg'):
+        return 0
+    if t in ('callm', 'calls'):
+        inner = ir_depth(tr, ir[3])
+        d = tr.defs[(ir[1], ir[2])][1]
+        return inner + ir_depth(tr, d)
+    if t == 'inv':
+        return 1 + ir_depth(tr, ir[1])
+    if t == 'lit':
+        return 1 + max(ir_depth(tr, x) for x in ir[1:])
+    if t in ('ent', 'det', 'neg', 'pow'):
+        return ir_depth(tr, ir[1])
+    return max(ir_depth(tr, x) for x in ir[1:] if isinstance(x, tuple))
+
+
+def gen_kind_files(tr, X, rng, meta, tier):
+    """obligations for source representation X, as three independent files
+    (soundness / round trips / derived quantities) for parallel checking"""
     import sympy as sp
-    out = [HEADER % (tr.path, tr.sha), 'Require Import Gen.TwoPortGen.\n', 'Section Obl.\nVariable K : fld.\nAdd Field KFo : (fth K).\n']
-    examples = []
+    files = {}
+    for group in ('sound', 'round', 'derived'):
+        out = [HEADER % (tr.path, tr.sha), 'Require Import Gen.TwoPortGen.\n', 'Section Obl.\nVariable K : fld.\nAdd Field KFo : (fth K).\n']
+        examples = []
+        names = []
 
-    def statement(name, irs, body, proof, always=()):
-        facs, vals, syms = tr.atoms(irs)
-        primes = []   # integer constants are non-zero by characteristic 0 (fchar0)
-        if any(f == 0 for f in facs):
-            # a denominator vanishes identically: the definition divides by zero
-            meta['degenerate'].append(name)
-        hyps = ['%s <> 0' % coq_int(p) for p in primes]
-        hyps += ['%s <> 0' % T.poly_to_coq(f, NAMES) for f in facs]
-        for h in always:
-            if h not in hyps:
-                hyps.append(h)
-        hs = ''.join('  %s ->\n' % h for h in hyps)
-        out.append('Theorem %s : forall (Z0 x11 x12 x21 x22 : K),\n%s  %s.\nProof.\n  intros Z0 x11 x12 x21 x22 %s.\n%s\nQed.\n' % (
-            name, hs, body, ' '.join('Hn%d' % i for i in range(len(hyps))), proof))
-        meta['statements'].append({'name': name, 'hyps': hyps, 'concl': body})
-        # non-vacuity: hypotheses satisfiable at a rational point (char 0)
-        pt = find_point([f for f in facs if f != 0], syms, rng)
-        if pt is not None and hyps:
-            lets = ' '.join('let %s : QcF := %s in' % (str(s), qc_lit(pt[s])) for s in syms)
-            conj = ' /\\ '.join('(%s)' % h.replace(': K)', ': QcF)') for h in hyps)
-            examples.append('Example nv_%s : %s %s.\nProof. cbv zeta. repeat split; apply qc_neq; vm_compute; reflexivity. Qed.\n' % (name, lets, conj))
+        def statement(name, irs, body, proof, always=()):
+            facs, vals, syms = tr.atoms(irs)
+            if any(f == 0 for f in facs):
+                # a denominator vanishes identically: the definition divides by zero
+                meta['degenerate'].append(name)
+            hyps = ['%s <> 0' % T.poly_to_coq(f, NAMES) for f in facs]
+            for h in always:
+                if h not in hyps and '(%s)' % h.split(' <> ')[0] + ' <> 0' not in hyps:
+                    hyps.append(h)
+            hs = ''.join('  %s ->\n' % h for h in hyps)
+            out.append('Theorem %s : forall (Z0 x11 x12 x21 x22 : K),\n%s  %s.\nProof.\n  intros Z0 x11 x12 x21 x22 %s.\n%s\nQed.\n' % (
+                name, hs, body, ' '.join('Hn%d' % i for i in range(len(hyps))), proof))
+            meta['statements'].append({'name': name, 'hyps': hyps, 'concl': body})
+            names.append(name)
+            # non-vacuity: hypotheses satisfiable at a rational point
+            import sympy as _sp
+            pt = find_point([f for f in facs if f != 0] + ([_sp.Symbol('Z0')] if always else []), syms, rng)
+            if hyps:
+                if pt is None:
+                    meta['vacuous'].append(name)
+                else:
+                    lets = ' '.join('let %s : QcF := %s in' % (str(s), qc_lit(pt[s])) for s in syms)
+                    conj = ' /\\ '.join('(%s)' % h for h in hyps)
+                    examples.append('Example nv_%s : %s %s.\nProof. cbv zeta. repeat split; apply qc_neq; vm_compute; reflexivity. Qed.\n' % (name, lets, conj))
 
-    M = '(Mat x11 x12 x21 x22)'
-    for Y in KINDS:
-        if Y == X:
-            continue
-        ir = tr.defs[(X, Y + 'params')][1]
-        extra = ['Z0 <> 0'] if (X in 'ST' or Y in 'ST') else []
-        statement('conv_sound_%s_%s' % (X, Y), [(ir, None)],
-                  'forall v : port K, rel_%s Z0 %s v -> rel_%s Z0 (%s_%sparams Z0 %s) v' % (X, M, Y, X, Y, M),
-                  '  intros [V1 I1 V2 I2] [E1 E2]. gen_unfold. tp_unfold. split; eq_from_hyps.', always=extra)
-        # round trip X -> Y -> X
-        irb = tr.defs[(Y, X + 'params')][1]
-        facs, vals, syms = tr.atoms([(ir, None)])
-        statement('conv_roundtrip_%s_%s' % (X, Y), [(ir, None), (irb, vals[0])],
-                  '%s_%sparams Z0 (%s_%sparams Z0 %s) = %s' % (Y, X, X, Y, M, M),
-                  '  gen_unfold. tp_unfold. apply mat_eq; fsolve.')
-    for q in DERIVED_ALL:
-        ir = tr.defs[(X, q)][1]
-        extra = ['Z0 <> 0'] if X in 'ST' else []
-        statement('derived_%s_%s' % (X, q), [(ir, None)],
-                  'is_%s (rel_%s Z0 %s) (%s_%s Z0 %s)' % (spec_of(q), X, M, X, q, M),
-                  '  intros [V1 I1 V2 I2] [E1 E2] Et. gen_unfold. tp_unfold. eq_from_hyps.', always=extra)
-    if X in tr.chains:
-        out.append('Theorem chain_sound_%s : forall (Z0 : K) (m t : mat K) (v : port K),\n'
-                   '  cascade (rel_%s Z0 m) (rel_%s Z0 t) v -> rel_%s Z0 (%s_chain Z0 m t) v.\n'
-                   'Proof.\n  intros Z0 [x11 x12 x21 x22] [y11 y12 y21 y22] [V1 I1 V2 I2] [Vm [Im [[E1 E2] [E3 E4]]]].\n'
-                   '  gen_unfold. tp_unfold. split; eq_from_hyps.\nQed.\n' % (X, X, X, X, X))
-        meta['statements'].append({'name': 'chain_sound_%s' % X, 'hyps': [], 'concl': 'cascade -> rel (chain)'})
-    out.append('End Obl.\n')
-    out.extend(examples)
-    names = [s['name'] for s in meta['statements'] if s['name'].split('_')[-2:] and True]
-    out.append('\n'.join('Print Assumptions %s.' % n for n in
-                         [s['name'] for s in meta['statements'] if ('_%s_' % X) in s['name'] or s['name'].endswith('_' + X)]))
-    return '\n'.join(out) + '\n'
+        M = '(Mat x11 x12 x21 x22)'
+        if group in ('sound', 'round'):
+            for Y in KINDS:
+                if Y == X:
+                    continue
+                ir = tr.defs[(X, Y + 'params')][1]
+                extra = ['Z0 <> 0'] if (X in 'ST' or Y in 'ST') else []
+                if group == 'sound':
+                    statement('conv_sound_%s_%s' % (X, Y), [(ir, None)],
+                              'forall v : port K, rel_%s Z0 %s v -> rel_%s Z0 (%s_%sparams Z0 %s) v' % (X, M, Y, X, Y, M),
+                              '  intros [V1 I1 V2 I2] [E1 E2]. gen_unfold. tp_unfold. split; eq_from_hyps.', always=extra)
+                else:
+                    irb = tr.defs[(Y, X + 'params')][1]
+                    depth = ir_depth(tr, ir) + ir_depth(tr, irb)
+                    if tier == 'quick' and depth > 3:
+                        meta['deferred'].append('conv_roundtrip_%s_%s' % (X, Y))
+                        continue
+                    facs, vals, syms = tr.atoms([(ir, None)])
+                    statement('conv_roundtrip_%s_%s' % (X, Y), [(ir, None), (irb, vals[0])],
+                              '%s_%sparams Z0 (%s_%sparams Z0 %s) = %s' % (Y, X, X, Y, M, M),
+                              '  gen_unfold. tp_unfold. apply mat_eq; fsolve.')
+        else:
+            for q in DERIVED_ALL:
+                ir = tr.defs[(X, q)][1]
+                extra = ['Z0 <> 0'] if X in 'ST' else []
+                statement('derived_%s_%s' % (X, q), [(ir, None)],
+                          'is_%s (rel_%s Z0 %s) (%s_%s Z0 %s)' % (spec_of(q), X, M, X, q, M),
+                          '  intros [V1 I1 V2 I2] [E1 E2] Et. gen_unfold. tp_unfold. eq_from_hyps.', always=extra)
+            if X in tr.chains:
+                out.append('Theorem chain_sound_%s : forall (Z0 : K) (m t : mat K) (v : port K),\n'
+                           '  cascade (rel_%s Z0 m) (rel_%s Z0 t) v -> rel_%s Z0 (%s_chain Z0 m t) v.\n'
+                           'Proof.\n  intros Z0 [x11 x12 x21 x22] [y11 y12 y21 y22] [V1 I1 V2 I2] [Vm [Im [[E1 E2] [E3 E4]]]].\n'
+                           '  gen_unfold. tp_unfold. split; eq_from_hyps.\nQed.\n' % (X, X, X, X, X))
+                meta['statements'].append({'name': 'chain_sound_%s' % X, 'hyps': [], 'concl': 'cascade (rel_%s m) (rel_%s t) v -> rel_%s (%s_chain m t) v' % (X, X, X, X)})
+                names.append('chain_sound_%s' % X)
+        out.append('End Obl.\n')
+        out.extend(examples)
+        out.append('\n'.join('Print Assumptions %s.' % n for n in names))
+        if names:
+            files['C08_%s_%s.v' % (X, group)] = '\n'.join(out) + '\n'
+    return files
 
 
 # ---- translator extension: chain -------------------------------------------
@@ -530,7 +563,7 @@ def run(tier='quick', replay=None):
             res.failed_obl.append(('translate', 'lcapy/twoport.py', str(e)))
             res.obligations += 1
         texts = {}
-        meta = {'statements': [], 'degenerate': []}
+        meta = {'statements': [], 'degenerate': [], 'vacuous': [], 'deferred': []}
         if tr is not None:
             texts['TwoPortGen.v'] = gen_defs(tr)
             w.write('TwoPortGen.v', texts['TwoPortGen.v'])
@@ -546,14 +579,15 @@ def run(tier='quick', replay=None):
                 files = []
                 for X in KINDS:
                     try:
-                        txt = gen_kind_file(tr, X, rng, meta)
+                        fs = gen_kind_files(tr, X, rng, meta, tier)
                     except T.Untranslatable as e:
                         res.failed_obl.append(('generate_%s' % X, 'C08_%s.v' % X, str(e)))
                         res.obligations += 1
                         continue
-                    texts['C08_%s.v' % X] = txt
-                    w.write('C08_%s.v' % X, txt)
-                    files.append('C08_%s.v' % X)
+                    for fn_, txt in fs.items():
+                        texts[fn_] = txt
+                        w.write(fn_, txt)
+                        files.append(fn_)
                 ptxt = open(os.path.join(core.VERIF, 'coq', 'props', 'C08.v')).read()
                 texts['C08.v'] = ptxt
                 w.write('C08.v', ptxt)
@@ -566,6 +600,11 @@ def run(tier='quick', replay=None):
                 res.coq_results(w.dir, results, {f: texts[f] for f in files})
                 res.extra['coq_seconds'] = {f: round(r[2], 1) for f, r in results.items()}
                 res.extra['degenerate_definitions'] = meta['degenerate']
+                res.extra['roundtrips_deferred_to_thorough'] = meta['deferred']
+                for nm in meta['degenerate'] + meta['vacuous']:
+                    # the generated hypotheses cannot be met: the theorem would be vacuous
+                    res.failed_obl.append((nm, 'generated', 'hypotheses unsatisfiable (a denominator vanishes identically); statement would be vacuous'))
+                    res.obligations += 1
                 res.extra['n_generated_statements'] = len(meta['statements'])
 
         # 3. correspondence + oracle on the real code
@@ -640,6 +679,9 @@ def run(tier='quick', replay=None):
                 k = '%sMatrix.%sparams' % (parts[2], parts[3])
             elif name.startswith('chain_sound_'):
                 k = '%sMatrix.chain' % parts[2]
+            if name.startswith('conv_roundtrip_') and (
+                    '%sMatrix.%sparams' % (parts[2], parts[3]) in by_key or '%sMatrix.%sparams' % (parts[3], parts[2]) in by_key):
+                continue
             if k and k in by_key:
                 continue
             violations.append({'key': 'obligation:' + name, 'what': 'Coq obligation %s in %s no longer checks' % (name, f),
